@@ -1398,27 +1398,37 @@ class UnitDatabase(Singleton):
                     # update the unit and the related value (honouring the exponent).
                     if c is category_to_unit_and_exp1:
                         value1 = self._ConvertMatchingExp(
-                            quantity_type, unit, used_unit_for_quantity_type, exp, value1
+                            quantity_type, unit, used_unit_for_quantity_type, exp, value1, len(c) > 1
                         )
                     else:
                         value2 = self._ConvertMatchingExp(
-                            quantity_type, unit, used_unit_for_quantity_type, exp, value2
+                            quantity_type, unit, used_unit_for_quantity_type, exp, value2, len(c) > 1
                         )
                     unit_exp[0] = used_unit_for_quantity_type
         return category_to_unit_and_exp1, category_to_unit_and_exp2, value1, value2
 
     def _ConvertMatchingExp(
-        self, quantity_type: str, from_unit: str, to_unit: str, exp: int, value: Any
+        self,
+        quantity_type: str,
+        from_unit: str,
+        to_unit: str,
+        exp: int,
+        value: Any,
+        in_derived: bool = False,
     ) -> Any:
         """
         Converts a value whose unit appears with the given exponent: with exponent 1 this is the
         plain conversion, otherwise the value is scaled by the unit ratio raised to the exponent.
+        Inside a derived quantity (in_derived) a unit is a factor of a product, so a unit with an
+        offset (degC, psig) is scaled by its ratio as well, never shifted by the offset.
         """
-        if exp == 1 or from_unit == to_unit:
+        if from_unit == to_unit or (exp == 1 and not in_derived):
             return self.Convert(quantity_type, from_unit, to_unit, value)
-        ratio = self.Convert(quantity_type, from_unit, to_unit, 1.0) - self.Convert(
-            quantity_type, from_unit, to_unit, 0.0
-        )
+        zero = self.Convert(quantity_type, from_unit, to_unit, 0.0)
+        if exp == 1 and zero == 0.0:
+            # no offset: the plain conversion is the scaling
+            return self.Convert(quantity_type, from_unit, to_unit, value)
+        ratio = self.Convert(quantity_type, from_unit, to_unit, 1.0) - zero
         factor = ratio**exp
         if isinstance(value, (list, tuple)):
             return type(value)(v * factor for v in value)
